@@ -23,7 +23,8 @@ def run(ctx, R, tier):
     from .c02 import nested_slices
     R.floor('B.C13.slice', nested_slices(F, R, rule='B.C13.slice'), 1)
     from ..enginea import run_engine_a
-    run_engine_a(R, F, groups=('rt',), effects=('panic',), loops=False, rule_prefix='A', fn_filter=lambda fn: 'effect::' in fn)
+    run_engine_a(R, F, groups=('rt',), effects=('panic',), loops=False, rule_prefix='A', fn_filter=lambda fn: 'effect::' in fn,
+                 singular=True, singular_floor=45)
 
 
 def mix(F, R):
